@@ -2,24 +2,10 @@ import NavisModel.Drv.C09
 /-! `navisdrv`: one request per line on stdin (`<prop>.<cmd> <payload>`), one answer per line on stdout. -/
 open Navis
 
-def dispatch (line : String) : String :=
-  let line := Proto.trim line
-  let (head, rest) := match line.splitOn " " with
-    | [] => ("", "")
-    | h :: t => (h, " ".intercalate t)
-  let r : Option String := match head.splitOn "." with
-    | ["c09", cmd] => Drv.C09.run cmd rest
-    | ["ping"] => some "pong"
-    | _ => none
-  match r with
-  | some s => s
-  | none => "BAD-OP"
+def handle (head rest : String) : Option String :=
+  match head.splitOn "." with
+  | ["c09", cmd] => Drv.C09.run cmd rest
+  | ["ping"] => some "pong"
+  | _ => none
 
-partial def loop (h : IO.FS.Stream) (out : IO.FS.Stream) : IO Unit := do
-  let line ← h.getLine
-  if line.isEmpty then return ()
-  out.putStrLn (dispatch line)
-  out.flush
-  loop h out
-
-def main : IO Unit := do loop (← IO.getStdin) (← IO.getStdout)
+def main : IO Unit := Proto.mainLoop handle
